@@ -18,6 +18,9 @@ sub [via=cmd|connect] mode=stream|cache rec=0|1 auto=0|1 off=<o> ep=<epoch index
       window  = -  | events joined by + : p<tag>.<size>.<ttl> (a publication made right after the
                 subscribe's history read returned) | s<k> (a late PUB/SUB copy of the publication k below
                 the top the read saw; ignored when there is none).  Stream mode only.
+      (harness-only fields the model deliberately ignores: `reset … flight=1` = Config.UseSingleFlight,
+       `sub … ov=<limit>` = an unrelated forward Node.History(limit) parked in the broker while the
+       subscribe runs — neither may change the outcome)
       handler = -  | err:<pubs> | 0:<pubs> | 1:<pubs>    pubs = tag.size.ttl joined by + (or empty)
   -> <outcome> pre=<state> post=<state> hi=<handler invoked 0|1> hp=<offsets the handler published>
      outcome = rec=<0|1> pubs=<offset:id,…> off=<o> ep=<e> pos=<o> was=<0|1> | err=112 | disc=3010 | disc=3004
